@@ -335,6 +335,19 @@ fn docs(p: &bpaf::OptionParser<Val>, unit: &Value, family: &str, ctx: &mut Ctx) 
         }
     }
 }
+#[cfg(feature = "full")]
+fn doc_one(p: &bpaf::OptionParser<Val>, unit: &Value, family: &str, mode: &str, ctx: &mut Ctx) {
+    let r = match mode {
+        "markdown" => catch(|| p.render_markdown("app")).map(|s| s.len()),
+        "html" => catch(|| p.render_html("app")).map(|s| s.len()),
+        _ => catch(|| p.render_manpage("app", bpaf::doc::Section::General, None, None, None)).map(|s| s.len()),
+    };
+    if let Err(e) = r {
+        report(unit, family, mode, &[], &e, ctx);
+    }
+}
+#[cfg(not(feature = "full"))]
+fn doc_one(_p: &bpaf::OptionParser<Val>, _unit: &Value, _family: &str, _mode: &str, _ctx: &mut Ctx) {}
 #[cfg(not(feature = "full"))]
 fn docs(_p: &bpaf::OptionParser<Val>, _unit: &Value, _family: &str, _ctx: &mut Ctx) {}
 
@@ -514,16 +527,7 @@ impl Check for C04 {
             }
         };
         match mode.as_str() {
-            "markdown" | "html" | "manpage" => {
-                let r = match mode.as_str() {
-                    "markdown" => catch(|| p.render_markdown("app")).map(|s| s.len()),
-                    "html" => catch(|| p.render_html("app")).map(|s| s.len()),
-                    _ => catch(|| p.render_manpage("app", bpaf::doc::Section::General, None, None, None)).map(|s| s.len()),
-                };
-                if let Err(e) = r {
-                    report(unit, &u.family, &mode, &[], &e, ctx);
-                }
-            }
+            "markdown" | "html" | "manpage" => doc_one(&p, unit, &u.family, &mode, ctx),
             "history" => {
                 let a = run(&p, &argv);
                 let b = run(&p, &argv);
